@@ -9,9 +9,9 @@ package main
 //	registry.biomes n=<biomes> => ok | fail …
 //	be.pack <x> <z> => ok <xz hex2> | no <xz hex2>           (PackXZ on an entity holding 0xa5 before)
 //	be.unpack <xz hex2> => <x> <z>
-//	chunk.wire secs= dmode= extra= reg= nb= air= hist= dhist= => ok n= len= rn= left= W= Wmb= Wws= R= Rmb= Rws= E=
-//	chunk.save secs= ypos= via= reg= nb= air= hist= => ok W= B= Y= SH= Sst= R= RH= Rst=
-//	light.rt used= sky= blk= sl= bl= => ok n= rn= left= sky= blk= sl= bl=
+//	chunk.wire secs= dmode= mdl= extra= reg= nb= air= hist= dhist= => ok n= len= wd= rn= left= W= Wmb= Wws= R= Rmb= Rws= E=
+//	chunk.save secs= ypos= via= mdl= reg= nb= air= hist= => ok W= Y= SP= SH= Sst= R= RH= Rst=
+//	light.rt used= extra= sky= blk= sl= bl= => ok n= len= wd= rn= left= sky= blk= sl= bl=
 //	save.hm secs= k= longs= => ok | err | panic…           (ChunkFromSave with height map k of that many longs; -1 = absent)
 //	chunk.rd secs= used= <hex> | section.rd used= <hex> | be.rd used= <hex> | light.rd used= <hex>
 //	     => ok left=<k> | err | panic at=<file> | hang      (malformed-input stream; outcome class only)
@@ -343,8 +343,8 @@ func c13Wire(c *Ctx, args []string) {
 			obs = fmt.Sprintf("err left=%d", r.Len())
 			return
 		}
-		obs = fmt.Sprintf("ok n=%d len=%d rn=%d left=%d W=%s Wmb=%s Wws=%s R=%s Rmb=%s Rws=%s E=%s",
-			n, wlen, rn, r.Len(), w, wmb, wws,
+		obs = fmt.Sprintf("ok n=%d len=%d wd=%s rn=%d left=%d W=%s Wmb=%s Wws=%s R=%s Rmb=%s Rws=%s E=%s",
+			n, wlen, c13DigBytes(wire[:wlen]), rn, r.Len(), w, wmb, wws,
 			c13SecsObs(dst, false, false), c13DigLongs(dst.HeightMaps.MotionBlocking.Raw()), c13DigLongs(dst.HeightMaps.WorldSurface.Raw()),
 			c13EntObs(dst.BlockEntity))
 	})
@@ -392,20 +392,28 @@ func c13Save(c *Ctx, args []string) {
 		if len(ys) > 0 {
 			yobs = strings.Join(ys, ".")
 		}
+		sps := make([]string, len(sv.Sections))
+		for i, s := range sv.Sections {
+			sps[i] = fmt.Sprintf("%d.%s.%d.%s", len(s.BlockStates.Palette), c13DigLongs(s.BlockStates.Data), len(s.Biomes.Palette), c13DigLongs(s.Biomes.Data))
+		}
+		sp := "-"
+		if len(sps) > 0 {
+			sp = strings.Join(sps, "/")
+		}
 		sh := c13AllHM(func(k int) []uint64 { return sv.Heightmaps[c13HMNames[k]] })
 		sst := hx([]byte(sv.Status))
 		var dst *level.Chunk
 		var err error
 		// a panic while loading is part of the observation (the save-form fields are still reported)
 		if cls := c13Guard(func() { dst, err = level.ChunkFromSave(sv) }); cls != "" {
-			obs = fmt.Sprintf("%s@fromsave W=%s Y=%s SH=%s Sst=%s", strings.Replace(cls, " ", "_", -1), w, yobs, sh, sst)
+			obs = fmt.Sprintf("%s@fromsave W=%s Y=%s SP=%s SH=%s Sst=%s", strings.Replace(cls, " ", "_", -1), w, yobs, sp, sh, sst)
 			return
 		}
 		if err != nil {
-			obs = fmt.Sprintf("err@fromsave W=%s Y=%s SH=%s Sst=%s", w, yobs, sh, sst)
+			obs = fmt.Sprintf("err@fromsave W=%s Y=%s SP=%s SH=%s Sst=%s", w, yobs, sp, sh, sst)
 			return
 		}
-		obs = fmt.Sprintf("ok W=%s Y=%s SH=%s Sst=%s R=%s RH=%s Rst=%s", w, yobs, sh, sst,
+		obs = fmt.Sprintf("ok W=%s Y=%s SP=%s SH=%s Sst=%s R=%s RH=%s Rst=%s", w, yobs, sp, sh, sst,
 			c13SecsObs(dst, false, true),
 			c13AllHM(func(k int) []uint64 { return c13HeightMap(dst, k).Raw() }),
 			hx([]byte(dst.Status)))
@@ -531,7 +539,7 @@ func c13LightRT(c *Ctx, args []string) {
 			obs = fmt.Sprintf("err left=%d", r.Len())
 			return
 		}
-		obs = fmt.Sprintf("ok n=%d len=%d rn=%d left=%d sky=%s blk=%s sl=%s bl=%s", n, buf.Len(), rn, r.Len(),
+		obs = fmt.Sprintf("ok n=%d len=%d wd=%s rn=%d left=%d sky=%s blk=%s sl=%s bl=%s", n, buf.Len(), c13DigBytes(buf.Bytes()), rn, r.Len(),
 			c13BitSetHex(dst.SkyLightMask), c13BitSetHex(dst.BlockLightMask), c13ArraysObs(dst.SkyLight), c13ArraysObs(dst.BlockLight))
 	})
 	if cls != "" {
@@ -632,7 +640,7 @@ func c13ViaSave(c *Ctx) {
 	n := len(block.StateList)
 	obs := "ok"
 	cls := c13Guard(func() {
-		const per = 255
+		const per = 1000
 		for base := 0; base < n; base += per * 24 {
 			ch := level.EmptyChunk(24)
 			for s := 0; s < 24; s++ {
@@ -641,7 +649,7 @@ func c13ViaSave(c *Ctx) {
 					if id >= n {
 						id = 0
 					}
-					ch.Sections[s].SetBlock(k*16+3, level.BlocksState(id))
+					ch.Sections[s].SetBlock(k*4+3, level.BlocksState(id))
 				}
 			}
 			var sv save.Chunk
@@ -701,7 +709,7 @@ func c13Biomes(c *Ctx) {
 func c13UsedChunk(secs int) *level.Chunk {
 	ch := level.EmptyChunk(secs)
 	for s := 0; s < secs; s++ {
-		for k := 0; k < 40; k++ {
+		for k := 0; k < 10; k++ {
 			ch.Sections[s].SetBlock(k*7, level.BlocksState(1+k*3+s))
 		}
 		for k := 0; k < 5; k++ {
@@ -1045,10 +1053,6 @@ func c13Gcd(a, b int) int {
 var c13StateClasses = []int{1, 2, 3, 15, 16, 17, 18, 31, 32, 33, 34, 63, 64, 65, 127, 128, 129, 255, 256, 257, 258, 300, 1000, 4096}
 var c13BiomeClasses = []int{1, 2, 3, 4, 5, 6, 8, 9, 10, 16, 40, 63}
 
-// classes the save conversion reads back soundly today (finding C13.save-width-from-data-length covers the others)
-var c13StateClassesSave = []int{1, 2, 3, 15, 16, 17, 18, 31, 32, 33, 34, 63, 64, 65, 127, 128, 129, 200, 255, 256}
-var c13BiomeClassesSave = []int{1, 2, 3, 4, 9, 10, 16, 40, 63}
-
 // section fills section s so that it holds `d` distinct states (d-1 new ones next to the air it starts with), then
 // scribbles over it.
 func (g *c13Gen) section(s, d int, scribble int) {
@@ -1126,9 +1130,12 @@ func (g *c13Gen) heightMaps(all bool) {
 	}
 }
 
-func (g *c13Gen) light() {
+func (g *c13Gen) light(small bool) {
 	r := g.c.R
 	for s := 0; s < g.e.secs; s++ {
+		if small && s > 2 && s < g.e.secs-1 {
+			continue // lines replayed on the byte-level model stay small
+		}
 		for _, k := range []string{"sl", "bl"} {
 			switch r.Intn(6) {
 			case 0, 1:
@@ -1261,11 +1268,11 @@ func (c *Ctx) c13Secs() int {
 }
 
 // c13RandomChunk builds a history for a chunk of e.secs sections; `wide` allows the classes the save form misreads.
-func (c *Ctx) c13RandomChunk(e c13Env, air []int, forSave bool, cls int) string {
+func (c *Ctx) c13RandomChunk(e c13Env, air []int, forSave bool, cls int, small bool) string {
 	g := &c13Gen{c: c, e: e, air: air}
 	r := c.R
 	touched := 1 + r.Intn(3)
-	if r.Intn(4) == 0 {
+	if r.Intn(4) == 0 && !small {
 		touched = e.secs
 	}
 	if touched > e.secs {
@@ -1284,25 +1291,15 @@ func (c *Ctx) c13RandomChunk(e c13Env, air []int, forSave bool, cls int) string 
 		s := perm[t]
 		d := c13StateClasses[(cls+t)%len(c13StateClasses)]
 		db := c13BiomeClasses[(cls+t)%len(c13BiomeClasses)]
-		if forSave && cls%6 != 5 {
-			// five save cases in six stay inside the widths the loader infers correctly
-			d = c13StateClassesSave[(cls+t)%len(c13StateClassesSave)]
-			db = c13BiomeClassesSave[(cls+t)%len(c13BiomeClassesSave)]
-		}
 		if touched > 4 && d > 300 {
 			d = 300
 		}
-		scribble := r.Intn(12)
-		if forSave && d >= 230 && d <= 256 {
-			scribble = 0 // one more distinct state would leave the class
-		}
-		g.section(s, d, scribble)
-		// in the sound save classes extra biomes must not push a 2..4-entry palette into the 3-bit class
-		g.biomes(s, db, !(forSave && cls%6 != 5) || db == 1 || db >= 9)
+		g.section(s, d, r.Intn(12))
+		g.biomes(s, db, true)
 	}
 	g.heightMaps(forSave)
 	if r.Intn(3) != 0 {
-		g.light()
+		g.light(small)
 	}
 	if !forSave {
 		g.entities([]int{0, 0, 1, 2, 5, 20}[r.Intn(6)])
@@ -1322,25 +1319,33 @@ func c13AirArg(air []int) string {
 	return strings.Join(parts, ".")
 }
 
-func (c *Ctx) c13WireCase(secs int, dmode string, cls int, air []int) {
+func (c *Ctx) c13WireCase(secs int, dmode string, cls int, air []int, mdl bool) {
 	e := c13Env{secs: secs, reg: len(block.StateList), nb: 63}
-	hist := c.c13RandomChunk(e, air, false, cls)
+	hist := c.c13RandomChunk(e, air, false, cls, mdl)
 	dhist := "-"
 	if dmode == "hist" || dmode == "wire" {
-		dhist = c.c13RandomChunk(e, air, false, c.R.Intn(len(c13StateClasses)))
+		dhist = c.c13RandomChunk(e, air, false, c.R.Intn(len(c13StateClasses)), mdl)
+	}
+	m := "0"
+	if mdl {
+		m = "1"
 	}
 	extra := "-"
 	if c.R.Intn(3) == 0 {
 		extra = hx([]byte{0x01, 0x80, 0xff, 0x00, 0x7f}[:1+c.R.Intn(5)])
 	}
 	c13Wire(c, []string{
-		"secs=" + strconv.Itoa(secs), "dmode=" + dmode, "extra=" + extra,
+		"secs=" + strconv.Itoa(secs), "dmode=" + dmode, "mdl=" + m, "extra=" + extra,
 		"reg=" + strconv.Itoa(e.reg), "nb=63", "air=" + c13AirArg(air), "hist=" + hist, "dhist=" + dhist})
 }
 
-func (c *Ctx) c13SaveCase(secs int, cls int, air []int) {
+func (c *Ctx) c13SaveCase(secs int, cls int, air []int, mdl bool) {
 	e := c13Env{secs: secs, reg: len(block.StateList), nb: 63}
-	hist := c.c13RandomChunk(e, air, true, cls)
+	hist := c.c13RandomChunk(e, air, true, cls, mdl)
+	m := "0"
+	if mdl {
+		m = "1"
+	}
 	ypos := []int{0, -4, -4, 0, -1, 3, 100}[c.R.Intn(7)]
 	if ypos+secs > 127 {
 		ypos = 0
@@ -1350,7 +1355,7 @@ func (c *Ctx) c13SaveCase(secs int, cls int, air []int) {
 		via = "nbt"
 	}
 	c13Save(c, []string{
-		"secs=" + strconv.Itoa(secs), "ypos=" + strconv.Itoa(ypos), "via=" + via,
+		"secs=" + strconv.Itoa(secs), "ypos=" + strconv.Itoa(ypos), "via=" + via, "mdl=" + m,
 		"reg=" + strconv.Itoa(e.reg), "nb=63", "air=" + c13AirArg(air), "hist=" + hist})
 }
 
@@ -1380,6 +1385,35 @@ func (c *Ctx) c13LightCase() {
 		extra = "00ff"
 	}
 	c13LightRT(c, []string{"used=" + strconv.Itoa(r.Intn(2)), "extra=" + extra, "sky=" + mask(), "blk=" + mask(), "sl=" + arrs(), "bl=" + arrs()})
+}
+
+// c13HmVariants: a well-formed chunk packet whose two height-map arrays have every combination of lengths around
+// the right one (each map is checked on its own: the right length next to a wrong one and vice versa).
+func (c *Ctx) c13HmVariants(secs int) {
+	hmNBT := func(mb, ws int) []byte {
+		var b bytes.Buffer
+		pk.NBT(struct {
+			MotionBlocking []uint64 `nbt:"MOTION_BLOCKING"`
+			WorldSurface   []uint64 `nbt:"WORLD_SURFACE"`
+		}{make([]uint64, mb), make([]uint64, ws)}).WriteTo(&b)
+		return b.Bytes()
+	}
+	src := level.EmptyChunk(secs)
+	var full bytes.Buffer
+	if _, err := src.WriteTo(&full); err != nil {
+		return
+	}
+	want := len(src.HeightMaps.MotionBlocking.Raw())
+	tail := full.Bytes()[len(hmNBT(want, want)):]
+	lens := []int{want, want - 1, want + 1, 0, 3}
+	for _, mb := range lens {
+		for _, ws := range lens {
+			in := append(append([]byte(nil), hmNBT(mb, ws)...), tail...)
+			for _, used := range []string{"0", "1"} {
+				c13Rd(c, "chunk.rd", []string{"secs=" + strconv.Itoa(secs), "used=" + used, hx(in)})
+			}
+		}
+	}
 }
 
 // c13Malformed derives malformed inputs from a valid encoding.
@@ -1482,30 +1516,41 @@ func genC13(c *Ctx) {
 	}
 
 	// light block round trips
-	for i := 0; i < c.N(400, 4000); i++ {
+	for i := 0; i < c.N(250, 3000); i++ {
 		c.c13LightCase()
 	}
 
 	// wire round trips: every section count with every destination mode, classes swept
 	cls := 0
+	// (lines with mdl=1 are replayed on the byte-level model by the driver, the others are judged by the array oracle only)
 	for secs := 1; secs <= 24; secs++ {
-		for _, dm := range []string{"empty", "hist", "wire", "self"} {
-			c.c13WireCase(secs, dm, cls, air)
+		for k, dm := range []string{"empty", "hist", "wire", "self"} {
+			c.c13WireCase(secs, dm, cls, air, (secs+k)%4 == 0)
 			cls++
 		}
 	}
 	for i := 0; i < c.N(1100, 12000); i++ {
 		dm := []string{"empty", "hist", "wire", "hist", "wire", "self"}[c.R.Intn(6)]
-		c.c13WireCase(c.c13Secs(), dm, cls, air)
+		mdl := i%40 == 0
+		secs := c.c13Secs()
+		if mdl {
+			secs = 1 + c.R.Intn(6)
+		}
+		c.c13WireCase(secs, dm, cls, air, mdl)
 		cls++
 	}
 	// save round trips
 	for secs := 1; secs <= 24; secs++ {
-		c.c13SaveCase(secs, cls, air)
+		c.c13SaveCase(secs, cls, air, secs%3 == 1)
 		cls++
 	}
 	for i := 0; i < c.N(700, 8000); i++ {
-		c.c13SaveCase(c.c13Secs(), cls, air)
+		mdl := i%40 == 0
+		secs := c.c13Secs()
+		if mdl {
+			secs = 1 + c.R.Intn(6)
+		}
+		c.c13SaveCase(secs, cls, air, mdl)
 		cls++
 	}
 
@@ -1519,26 +1564,34 @@ func genC13(c *Ctx) {
 		}
 	}
 
+	// height maps of every length combination in an otherwise well-formed packet
+	c.c13HmVariants(1)
+	c.c13HmVariants(2)
+	if c.Thorough() {
+		c.c13HmVariants(4)
+		c.c13HmVariants(24)
+	}
+
 	// malformed-input stream
 	e1 := c13Env{secs: 1, reg: reg, nb: 63}
-	for round := 0; round < c.N(3, 40); round++ {
-		secs := []int{1, 1, 2, 4}[c.R.Intn(4)]
+	for round := 0; round < c.N(2, 8); round++ {
+		secs := []int{1, 1, 1, 2}[c.R.Intn(4)]
 		e := c13Env{secs: secs, reg: reg, nb: 63}
 		src := level.EmptyChunk(secs)
-		c13Apply(src, e, c.c13RandomChunk(e, air, false, round*5))
+		c13Apply(src, e, c.c13RandomChunk(e, air, false, round*5, true))
 		var buf bytes.Buffer
 		if _, err := src.WriteTo(&buf); err == nil {
 			for _, used := range []string{"0", "1"} {
-				c.c13Malformed("chunk.rd", []string{"secs=" + strconv.Itoa(secs), "used=" + used}, buf.Bytes(), c.N(60, 600))
+				c.c13Malformed("chunk.rd", []string{"secs=" + strconv.Itoa(secs), "used=" + used}, buf.Bytes(), c.N(20, 300))
 			}
 		}
 		// one section
 		one := level.EmptyChunk(1)
-		c13Apply(one, e1, c.c13RandomChunk(e1, air, false, round*7+1))
+		c13Apply(one, e1, c.c13RandomChunk(e1, air, false, round*7+1, true))
 		buf.Reset()
 		if _, err := one.Sections[0].WriteTo(&buf); err == nil {
 			for _, used := range []string{"0", "1"} {
-				c.c13Malformed("section.rd", []string{"used=" + used}, buf.Bytes(), c.N(80, 800))
+				c.c13Malformed("section.rd", []string{"used=" + used}, buf.Bytes(), c.N(40, 400))
 			}
 		}
 		// block entities
